@@ -7,5 +7,5 @@ CONSTANTS
   MaxFormTuples = 3
   Pos <- Positions
   DevAccumulate = FALSE
-INVARIANTS TypeOK ValidityInv AliasInv OwnEpochInv FourthInv RoundTripInv TObsInv FrozenInv ConvInv EmitDef EmitRun
+INVARIANTS IsoInv TypeOK ValidityInv AliasInv OwnEpochInv FourthInv RoundTripInv TObsInv FrozenInv ConvInv EmitDef EmitRun
 CHECK_DEADLOCK FALSE
